@@ -165,6 +165,14 @@ def decorate(f, form, sel):
             if names:
                 deco = (modifiers.kwoargs if which == 'k' else modifiers.posoargs)(*names)
                 g = reuse(deco, g) if g is f else deco(g)
+                # the intermediate result is looked up as a method (on a class and on an instance) before the next decorator is
+                # applied to it: nothing of that may carry over to what is stacked on top
+                try:
+                    tmp = type('Tmp', (object,), {'m': g})
+                    tmp.m
+                    tmp().m
+                except Exception:
+                    pass
         return g
     if form == 'start':
         return reuse(modifiers.kwoargs(*sel[1], start=sel[0]), f)
@@ -304,6 +312,8 @@ def check_case(spec, form, sel, placement, stats, enum=True, kwnames=KW, maxpos=
         if placement == 'class' and n:
             args = (obj,) + args[1:]
         kwargs = {k: 'k_' + k for k in K}
+        if K and (n + len(K)) % 3 == 0:
+            kwargs[K[0]] = None         # None is a value like any other
         if placement == 'class' and first in K:
             kwargs[first] = obj
         stats.extra['calls'] += 1
